@@ -48,6 +48,39 @@ def units_for(db, prop):
     return units
 
 
+def numba_cache_dir():
+    """numba's on-disk cache is keyed per file; a caller compiled earlier can hold a stale copy of a
+    callee from another module.  Key the cache directory by the hash of all repository sources so
+    a changed tree always recompiles."""
+    import hashlib
+
+    h = hashlib.sha256()
+    base = os.path.join(R.repo_path(), "mchap")
+    for dp, dn, fn in sorted(os.walk(base)):
+        dn.sort()
+        if "tests" in dp.split(os.sep):
+            continue
+        for f in sorted(fn):
+            if f.endswith(".py"):
+                with open(os.path.join(dp, f), "rb") as fh:
+                    h.update(f.encode())
+                    h.update(fh.read())
+    d = os.path.join(ROOT, ".numba_cache", h.hexdigest()[:16])
+    root = os.path.join(ROOT, ".numba_cache")
+    os.makedirs(d, exist_ok=True)
+    try:
+        subs = sorted((os.path.getmtime(os.path.join(root, x)), x) for x in os.listdir(root))
+        import shutil
+
+        for _, x in subs[:-4]:
+            if os.path.join(root, x) != d:
+                shutil.rmtree(os.path.join(root, x), ignore_errors=True)
+        os.utime(d, None)
+    except OSError:
+        pass
+    return d
+
+
 def run_rt(prop, tier, seed, extra=None):
     """run the bounded run-time contract harness (under the repository's interpreter)"""
     mod = os.path.join(ROOT, "rt", "r_%s.py" % prop)
@@ -57,7 +90,7 @@ def run_rt(prop, tier, seed, extra=None):
     env["PYTHONPATH"] = ROOT + os.pathsep + R.repo_path()
     env["VERIF_TIER"] = tier
     env["VERIF_SEED"] = str(seed)
-    env.setdefault("NUMBA_CACHE_DIR", os.path.join(ROOT, ".numba_cache"))
+    env["NUMBA_CACHE_DIR"] = numba_cache_dir()
     cmd = [VENV_PY, "-W", "ignore", "-m", "rt.driver", prop, "--tier", tier, "--seed", str(seed)]
     if extra:
         cmd += extra
@@ -74,7 +107,7 @@ def run_rt(prop, tier, seed, extra=None):
 def run_replay_search(prop, unit_name, obligation, model, seed):
     env = dict(os.environ)
     env["PYTHONPATH"] = ROOT + os.pathsep + R.repo_path()
-    env.setdefault("NUMBA_CACHE_DIR", os.path.join(ROOT, ".numba_cache"))
+    env["NUMBA_CACHE_DIR"] = numba_cache_dir()
     req = json.dumps({"function": unit_name, "obligation": obligation, "model": model or {}, "seed": seed})
     p = subprocess.run([VENV_PY, "-W", "ignore", "-m", "rt.replay", prop], cwd=ROOT, env=env, input=req, capture_output=True, text=True)
     out = p.stdout.strip().splitlines()
@@ -143,10 +176,15 @@ def main(argv=None):
     solver_time = 0.0
     functions = []
     trusted = set()
+    canaries = []
     for r in results:
         kind, name, variant = r["unit"]
         functions.append({"kind": kind, "name": name, "variant": variant, "sha256": r.get("sha"), "file": r.get("file"), "backend": "U", "obligations": len(r["obligations"]), "wall_s": r.get("wall_s")})
         trusted.update(r.get("trusted", []))
+        for c in r.get("canaries", []):
+            canaries.append(c)
+            if c["status"] == "vacuous":
+                crashed.append({"unit": ["canary", c["id"], {}], "error": "VACUOUS: assumptions contradictory or no exit reachable (%s)" % c["id"]})
         for o in r["obligations"]:
             n_obl += 1
             solver_time += o["time"]
@@ -197,21 +235,25 @@ def main(argv=None):
                 json.dump(f, open(path, "w"), indent=1, default=str)
                 violations.append((key, path, False))
     wall = time.time() - t0
-    ev = propdefs.build_evidence(prop, pd, tier, seed, wall, functions, n_obl, n_dis, obl_samples, per_solver, solver_time, sorted(trusted), rt_cov, violations, undecided, known_hit, crashed)
+    ev = propdefs.build_evidence(prop, pd, tier, seed, wall, functions, n_obl, n_dis, obl_samples, per_solver, solver_time, sorted(trusted), rt_cov, violations, undecided, known_hit, crashed, canaries)
     os.makedirs(os.path.join(ROOT, "evidence"), exist_ok=True)
     json.dump(ev, open(os.path.join(ROOT, "evidence", prop + ".json"), "w"), indent=1, default=str)
     for kf, what in known_hit:
         print("KNOWN-FINDING: property=%s %s [%s]" % (prop, kf.get("what", ""), what))
     print("%s tier=%s: %d units, %d/%d U-obligations discharged, solver %.1fs, rt=%s, wall %.1fs" % (prop, tier, len(results), n_dis, n_obl, solver_time, ("%d evals" % rt_cov.get("evaluations", 0)) if rt_cov else "-", wall))
-    if crashed:
-        for c in crashed:
-            print("TOOL-FAILURE unit=%s: %s" % (c["unit"][1], str(c["error"])[-1500:]))
-        return 3
+    for c in crashed:
+        print("TOOL-FAILURE unit=%s: %s" % (c["unit"][1], str(c["error"])[-1500:]))
     if violations:
+        seen = set()
         for oid, path, nofail in violations:
+            if oid in seen:
+                continue
+            seen.add(oid)
             print("failed obligation: %s" % oid)
             print("VIOLATION property=%s replay=%s%s" % (prop, path, " no-failing-input-found" if nofail else ""))
         return 1
+    if crashed:
+        return 3
     if n_obl == 0 and not rt_cov:
         print("TOOL-FAILURE: zero obligations generated for %s" % prop)
         return 3
@@ -228,7 +270,7 @@ def replay_file(prop, path):
     rec = json.load(open(path))
     env = dict(os.environ)
     env["PYTHONPATH"] = ROOT + os.pathsep + R.repo_path()
-    env.setdefault("NUMBA_CACHE_DIR", os.path.join(ROOT, ".numba_cache"))
+    env["NUMBA_CACHE_DIR"] = numba_cache_dir()
     p = subprocess.run([VENV_PY, "-W", "ignore", "-m", "rt.replay", prop, "--file", path], cwd=ROOT, env=env, text=True)
     return p.returncode
 
